@@ -296,6 +296,13 @@ fn oracle_maxsize(ops: &[String], outs: &[String]) -> Option<OracleFail> {
         let t: Vec<&str> = op.split(' ').collect();
         if t.len() == 3 && t[0] == "mx" {
             let len: usize = t[2].parse().ok()?;
+            if len <= renetcode::NETCODE_MAX_PAYLOAD_BYTES && out == "too-big" {
+                return Some(OracleFail {
+                    at: i,
+                    signature: format!("legal-payload-refused:{}", t[1]),
+                    what: format!("a {}-byte payload (within the {}-byte limit) was refused by the sending netcode layer ({})", len, renetcode::NETCODE_MAX_PAYLOAD_BYTES, t[1]),
+                });
+            }
             if len <= renetcode::NETCODE_MAX_PAYLOAD_BYTES && out == "dropped" {
                 return Some(OracleFail {
                     at: i,
